@@ -232,7 +232,7 @@ def r_complete(ctx, rule='R01.5'):
         for (bb, i, s) in comp:
             v = b.origin.rvalue(s['rv'], (bb, i))
             ex = M.simplify_field(v, 'is_exact', None)
-            ctx.check(M.is_call(ex, 'is_none') and solver_field(ex[2][0], 'abort_proof'), rule, tag + '/is_exact-origin', b, b.loc(bb, i),
+            ctx.check(is_variant_test(ex, lambda x: solver_field(x, 'abort_proof'), 'None'), rule, tag + '/is_exact-origin', b, b.loc(bb, i),
                       'Completion.is_exact = abort_proof.is_none()', 'Completion.is_exact is %s, not abort_proof.is_none()' % M.show(ex))
             bv = M.simplify_field(v, 'best_value', None)
             _check_best_value_term(ctx, rule, tag + '/best_value-origin', b, b.loc(bb, i), bv)
@@ -505,6 +505,30 @@ def r_check_then_act(ctx, rule='R03.b'):
             ctx.check(len(sites) == 1, rule, 'one-acquisition/%s%s' % (name, '' if body is b else '::closure'), body, body.loc(0),
                       'all reads used in tests and all writes of Critical in this function go through one lock acquisition',
                       '%s reads/tests and writes Critical through %d different lock acquisitions (check-then-act across a release)' % (name, len(sites)))
+
+
+def r_pop_unwrap(ctx):
+    """a `fringe.pop().unwrap()` is executed only on a path that asserted the fringe non-empty since the last pop (a panic kills the
+    worker — C04 — or the sequential search — C01)"""
+    for tag, adt in SOLVERS:
+        b = ctx.body(adt, 'get_workload')
+        pops = b.calls_to('Fringe::pop')
+        unwrapped = []
+        for (bb, t) in b.calls_to('unwrap', 'expect'):
+            a0 = b.origin.operand(t['args'][0], b.term_point(bb))
+            if M.is_call(a0, 'Fringe::pop') and a0[3]:
+                unwrapped.append(b.term_point(a0[3][1]))
+        rule = 'R04.9' if tag == 'par' else 'R01.5'
+        if not ctx.floor(rule, tag + '/pop-unwrap', b, len(unwrapped), 1, 'fringe.pop().unwrap() sites in get_workload'):
+            continue
+        fr = lambda x: solver_field(x, 'fringe')
+        cut = _cut_edges(b, lambda atoms, lit: any(empty_lit(a, fr, empty=False) for a in atoms))
+        starts = [(0, 0)] + [p for (bb, t) in pops for p in b.after(b.term_point(bb))]
+        r = b.reach(starts, cut_edges=cut, stop=[b.term_point(bb) for (bb, t) in pops])
+        bad = [p for p in unwrapped if p in r]
+        ctx.check(not bad, rule, tag + '/pop-unwrap-guarded', b, b.loc(bad[0][0]) if bad else b.loc(pops[0][0]),
+                  'every fringe.pop().unwrap() is reached only through an edge asserting the fringe non-empty since the previous pop (%d sites)' % len(unwrapped),
+                  'fringe.pop().unwrap() can run on an empty fringe (no `!is_empty()` asserted since the last pop): the %s panics' % ('worker thread' if tag == 'par' else 'search'))
 
 
 def r_pop_discard(ctx, rule='R03.pop'):
@@ -931,6 +955,29 @@ def r_abort(ctx):
             r = asb.reach(asb.after(asb.term_point(clears[0][0])))
             ctx.check(asb.term_point(pops[0][0]) not in r, 'R05.4', 'abort-bound/peek-before-clear', asb, asb.loc(pops[0][0]),
                       'the top of the fringe is read before the fringe is cleared', 'the fringe is cleared before its top bound is read')
+    # Aborted is answered only when an abort was recorded (otherwise the search stops at once and reports an 'exact' nothing)
+    for tag_, adt_ in SOLVERS:
+        gw_ = ctx.body(adt_, 'get_workload')
+        ab_ = [(bb_, i_) for (bb_, i_, s_) in aggr_assigns(gw_, 'WorkLoad', 'Aborted')]
+        if ab_:
+            ok_, _, _ = M.guarded(gw_, ab_, lambda atoms, lit: any(opt_is(a_, lambda x: solver_field(x, 'abort_proof'), 'Some') for a_ in atoms))
+            ctx.check(ok_, 'R05.2', tag_ + '/aborted-only-after-abort', gw_, gw_.loc(*ab_[0]), 'get_workload answers Aborted only on an edge asserting abort_proof is Some',
+                      'get_workload can answer Aborted although no abort was recorded: the search stops without exploring and reports is_exact = true')
+    # the in-flight table the abort reads is filled when a worker takes a node: upper_bounds[thread_id] := ub of the node handed out
+    gwb = ctx.body(PAR, 'get_workload')
+    wi_ = aggr_assigns(gwb, 'WorkLoad', 'WorkItem')
+    ubw = [(pt, d, v) for (pt, d, v, s) in writes(gwb) if isinstance(d, tuple) and d[0] == 'index' and solver_field(d[1], 'upper_bounds')]
+    good = bool(wi_) and bool(ubw)
+    for (bb_, i_, s_) in wi_:
+        item = gwb.origin.rvalue(s_['rv'], (bb_, i_))
+        node_t = dict(item[3]).get('node') if isinstance(item, tuple) and item[0] == 'aggr' else None
+        okw = [pt for (pt, d, v) in ubw if M.is_param(d[2]) and d[2][1] == gwb.name and is_subproblem_field(v, 'ub') and (node_t is None or v[1] == node_t or
+               (isinstance(node_t, tuple) and node_t[0] == 'var' and isinstance(v[1], tuple) and v[1][0] == 'var' and v[1][2] == node_t[2]))]
+        r_ = gwb.reach([(0, 0)], avoid=okw)
+        good = good and bool(okw) and (bb_, i_) not in r_
+    ctx.check(good, 'R05.4', 'abort-bound/in-flight-recorded-at-pop', gwb, gwb.loc(wi_[0][0], wi_[0][1]) if wi_ else gwb.loc(0),
+              'every path that hands a node to a worker records upper_bounds[thread_id] := node.ub (the table an aborting worker takes its bound from)',
+              'a worker can take a node without recording its bound in upper_bounds[thread_id]: an abort by another worker then stores a bound that ignores this in-flight node')
     r_nb_threads_marker_only(ctx)
 
 
@@ -950,11 +997,7 @@ def _ub_collapse_guarded(ctx, gw):
         return True
     def acc(atoms, lit):
         for a in atoms:
-            if a[0] == 'F' and M.is_call(a[1], 'is_some') and solver_field(a[1][2][0], 'abort_proof'):
-                return True
-            if a[0] == 'T' and M.is_call(a[1], 'is_none') and solver_field(a[1][2][0], 'abort_proof'):
-                return True
-            if a[0] == 'in' and solver_field(a[1], 'abort_proof') and a[2] == frozenset(['None']):
+            if opt_is(a, lambda x: solver_field(x, 'abort_proof'), 'None'):
                 return True
         return False
     ok, cut, bad = M.guarded(gw, pts, acc)
